@@ -37,7 +37,7 @@ func c12Cfg() *DeclCfg {
 	return &DeclCfg{
 		Kinds: []string{"bool", "int", "int8", "int16", "int32", "int64", "uint", "uint8", "uint16", "uint32", "uint64", "float32", "float64",
 			"string", "string", "string", "duration", "[]int", "[]string", "[]string", "[]float64", "[]uint8", "map[string]int", "map[string]string", "map[string]string",
-			"map[int]string", "map[string]bool", "map[string]float64", "*int", "*string", "*bool", "*uint16", "um", "func(string)", "[]bool", "filename", "ulist"},
+			"map[int]string", "map[string]bool", "map[string]float64", "*int", "*string", "*bool", "*uint16", "um", "func(string)", "[]bool", "filename", "ulist", "level", "[]level", "map[string]level"},
 		MinOpts: 1, MaxOpts: 5, MaxGroups: 2, MaxSub: 2, MaxCmds: 3, MaxDepth: 3, Exec: true,
 		Defaults: true, Hidden: true, NoIni: true, IniName: true, Namespaces: true, Base: true, Init: false, Descriptions: true, Choices: false, DottedCmds: true, MultiLine: true, BaseMulti: true, Optional: true, DupFields: true, CapCmds: true,
 		ParserOpts: []uint{0, optHelpFlag, optHelpFlag | optPassDoubleDash, optIgnoreUnknown},
